@@ -306,12 +306,38 @@ func (w *World) CheckTypeInjection(out *Outcome, o *Obs) []Violation {
 		return nil
 	}
 	created := w.Created(o)
+	// a definition registered programmatically while the container refreshes is a candidate for
+	// every component created after that moment; for those created during Run it may or may
+	// not have been there yet
+	late := map[string]bool{}
+	for _, i := range w.P.Instances {
+		if i.Contributed && i.ContribBy != "" {
+			late[i.ID] = true
+		}
+	}
+	type job struct {
+		i        *sdl.Instance
+		pt       *sdl.Point
+		got      []string
+		complete bool
+		afterRun bool
+	}
+	var jobs []job
 	for _, i := range w.P.Instances {
 		for _, pt := range w.Types[i.Type].Points {
 			if pt.Sel == sdl.SelName {
 				continue
 			}
-			got := o.Points[i.ID][pt.Field]
+			jobs = append(jobs, job{i, pt, o.Points[i.ID][pt.Field], o.OK() && created[i.ID], false})
+			if pl, ok := o.PointsLate[i.ID]; ok && o.OK() && !created[i.ID] {
+				// created by the lookup that followed Run
+				jobs = append(jobs, job{i, pt, pl[pt.Field], true, true})
+			}
+		}
+	}
+	for _, j := range jobs {
+		{
+			i, pt, got := j.i, j.pt, j.got
 			key := i.ID + "." + pt.Field
 			// soundness, on every run
 			tc := setOf(w.typeCands(i, pt))
@@ -339,7 +365,7 @@ func (w *World) CheckTypeInjection(out *Outcome, o *Obs) []Violation {
 				vs = append(vs, v("C06", "single-holds-many", key, fmt.Sprintf("%v", got)))
 			}
 			// completeness, on successful runs, for created holders
-			if !o.OK() || !created[i.ID] {
+			if !j.complete {
 				continue
 			}
 			r := out.Res[i.ID][pt.Field]
@@ -351,8 +377,12 @@ func (w *World) CheckTypeInjection(out *Outcome, o *Obs) []Violation {
 			}
 			want := setOf(r.Cands)
 			for _, c := range r.Cands {
-				if seen[c] == 0 {
-					vs = append(vs, v("C06", "slice-misses-component", key, fmt.Sprintf("%s lacks %s; expected exactly %v, got %v", key, c, r.Cands, got)))
+				if seen[c] == 0 && !(late[c] && !j.afterRun) {
+					when := ""
+					if j.afterRun {
+						when = " (the holder was created by a lookup after Run)"
+					}
+					vs = append(vs, v("C06", "slice-misses-component", key, fmt.Sprintf("%s lacks %s; expected exactly %v, got %v%s", key, c, r.Cands, got, when)))
 				}
 			}
 			if len(pt.Quals) == 0 {
